@@ -298,6 +298,28 @@ def step_monitor(av, case, res):
             v, det = tolerance.compare(b, a, scale)
             res.count('stepmon/' + v)
             res.add('stepmon_rules', f'{type(obj).__name__}->{type(ret).__name__}')
+            if v == tolerance.VIOLATION and not numpy.isfinite(numpy.asarray(b, dtype=complex) if numpy.asarray(b).dtype.kind in 'fc' else 0).all():
+                # a non-finite right-hand side with a finite left-hand side: if some SUB-TERM of the left-hand side is already non-finite at
+                # this assignment (e.g. a NaN loop-invariant body of a zero-length loop sum, rewritten to body*0) the point is outside
+                # the domain of the expression and the step is not judged
+                from nutils import evaluable as ev_
+                stack, seen, dirty = [obj], set(), False
+                while stack and len(seen) < 80 and not dirty:
+                    x = stack.pop()
+                    if id(x) in seen or not isinstance(x, ev_.Array) or isinstance(x, ev_._LoopIndex):
+                        continue
+                    seen.add(id(x))
+                    stack.extend(x.dependencies)
+                    if x.dtype in (float, complex) and not any(isinstance(q, ev_._LoopIndex) and q not in free for q in x.arguments):
+                        try:
+                            with numpy.errstate(all='ignore'):
+                                xv = numpy.asarray(evmon.evaluate(bind(x), av, simplify=False, optimize=False))
+                            dirty = not numpy.isfinite(xv).all()
+                        except Exception:
+                            pass
+                if dirty:
+                    res.count('stepmon/lhs_subterm_nonfinite')
+                    continue
             if v == tolerance.VIOLATION:
                 res.violation('single rewrite step changes the value', dict(case=case, args=enc_args(av), desc=evgen.describe(case)),
                               f'{obj} -> {ret}: {det}', mechanism=evfind.classify_c01(case, 'wrong-value', det))
